@@ -21,6 +21,8 @@ func c11(c *Check) {
 	c.Extra["frozen_entries"] = n
 	c.Rule("C11/no-failure-reported-as-success", "on the failure edge of one error no function returns another error value that is provably nil at that point (a wrapped stale `err` instead of the error just tested): a failed step is never reported as success", 1)
 	noFailureAsSuccess(c, "C11/no-failure-reported-as-success", fnsInPackages(c, "/x/aggregate"))
+	c.Rule("C11/disabled-pair-stays-disabled", "no registry operation other than the toggle proposal changes a pair's enabled flag: AddCoin stores the loaded pair with only its denomination list extended (shared with C12)", 1)
+	addCoinKeepsPair(c, "C11/disabled-pair-stays-disabled")
 	c.Rule("C11/approval-scan-complete", "monitorApprovalEvent accepts a call result only after looking at every log: an Approval event behind another event is still refused", 1)
 	allLogsProcessed(c, "C11/approval-scan-complete", agK+"Keeper.monitorApprovalEvent")
 
